@@ -422,11 +422,11 @@ pub fn run(seed: u64, ntraces: usize) {
                         _ => { g.its_tx("setFlowLimits", &caller, "setFlowLimits", vec![big(1), tid.clone(), big(1), big(l)], 0, &[], json!({"ids": [hx(&tid)], "limits": [l.to_string()]})); }
                     }
                 }
-                10 => { let caller = if scripted || r.chance(3, 4) { g.owner.clone() } else { anyone.clone() }; let p = !g.paused;
+                10 => { let caller = if scripted { g.owner.clone() } else { match r.below(8) { 0 => anyone.clone(), 1 => g.operator.clone(), _ => g.owner.clone() } }; let p = !g.paused;
                     if p && !scripted && r.chance(1, 2) { continue; }
                     let (ok, _, _) = g.its_tx("pause", &caller, if p { "pause" } else { "unpause" }, vec![], 0, &[], json!({"paused": p})); if ok { g.paused = p;
                         if p && !scripted { for _ in 0..(1 + r.below(3)) { script.push(*r.pick(&[4u64, 5, 6, 7, 2, 0, 14, 15, 17, 20, 8])); } script.push(10); } } }
-                11 => { let caller = if r.chance(3, 4) { g.owner.clone() } else { anyone.clone() };
+                11 => { let caller = match r.below(8) { 0 => anyone.clone(), 1 | 2 => g.operator.clone(), _ => g.owner.clone() };      // the operator is not the owner
                     let chain = r.pick(&[&b"ethereum"[..], b"avalanche", b"axelar", b"polygon", b""]).to_vec();
                     if r.chance(1, 2) { g.its_tx("removeTrusted", &caller, "removeTrustedAddress", vec![chain.clone()], 0, &[], json!({"chain": hx(&chain)})); }
                     else { let addr = r.pick(&[&b"hub"[..], b"0xITSnew", b"axelar1hub", b""]).to_vec();
